@@ -151,9 +151,14 @@ fn cli_runs(texts: &[(String, String)], n: usize) -> Result<(), String> {
     let cli = std::env::var("OAL_CLI").unwrap_or_else(|_| "/verif/.build/repo/debug/oal-cli".into());
     let dir = format!("/var/tmp/oalmc-c06-{}-{}", std::process::id(), hash_of(&texts.to_vec()));
     let _ = std::fs::remove_dir_all(&dir);
-    std::fs::create_dir_all(&dir).map_err(|e| e.to_string())?;
+    // Failures of the harness's own file handling are machinery errors, never verdicts.
+    std::fs::create_dir_all(&dir).expect("harness: scratch directory");
     for (name, text) in texts {
-        std::fs::write(format!("{dir}/{name}"), text).map_err(|e| e.to_string())?;
+        let path = std::path::PathBuf::from(format!("{dir}/{name}"));
+        if let Some(parent) = path.parent() {
+            std::fs::create_dir_all(parent).expect("harness: module directory");
+        }
+        std::fs::write(&path, text).expect("harness: write module");
     }
     let mut first: Option<Vec<u8>> = None;
     let mut res = Ok(());
@@ -166,9 +171,8 @@ fn cli_runs(texts: &[(String, String)], n: usize) -> Result<(), String> {
             .stdout(std::process::Stdio::null())
             .status();
         let bytes = std::fs::read(&out).unwrap_or_default();
-        if st.is_err() {
-            res = Err("cannot run oal-cli".into());
-            break;
+        if let Err(e) = st {
+            panic!("harness: cannot run oal-cli: {e}");
         }
         match &first {
             None => first = Some(bytes),
